@@ -11,7 +11,7 @@ SPEC = {
     "design_ref": "DESIGN.md section 5, C11",
     "rule": ("cases = (every class with a node mode: 12 model classes + MinErrorFlow) x (node-weighted instance: shape of W-DAG / W-DIG with node values induced by a flow, its perturbed "
              "variant, and the single-node graph); inside: {all nodes weighted, each single node without the attribute, each single node explicitly ignored, node-level constraint (node list "
-             "and edge list form), additional start / end at each inner node, error scaling on a node}; oracle: the harness builds the expansion v -> (v|in, v|out) itself (independent code and "
+             "and edge list form), additional start / end at each inner node (also with node weights that are only explained by a route starting / ending there), error scaling on a node}; oracle: the harness builds the expansion v -> (v|in, v|out) itself (independent code and "
              "names), solves the edge-weighted instance with all original arcs ignored and the translated features, and compares (solved, objective); the node-mode routes must be in original node "
              "names and valid in the original graph; NodeExpandedDiGraph round trips (expand / condense of paths, constraints, elements, starts, ends) are checked for every route of the graph. "
              "non-trivial = distinct (class, instance, variant) where both runs were solved and compared"),
@@ -169,17 +169,60 @@ def run(case):
                 add("node_constraint", use0, {ckey: [list(p2)]}, {ckey: [[[p2[0] + "|in", p2[0] + "|out"], [p2[1] + "|in", p2[1] + "|out"]]]})
                 add("edge_constraint", use0, {ckey: [[[p2[0], p2[1]]]]},
                     {ckey: [[[p2[0] + "|in", p2[0] + "|out"], [p2[0] + "|out", p2[1] + "|in"], [p2[1] + "|in", p2[1] + "|out"]]]})
-        if cls in sweep.ACCEPTS_STARTS | {"MinErrorFlow"}:
+        # MinFlowDecomp takes additional starts / ends in node mode only: its explicit expansion gets a global source S* (sink T*)
+        # node, split like every node, whose own arc and whose arcs to the starts (from the ends) are ignored
+        glob = cls == "MinFlowDecomp"
+        if cls in sweep.ACCEPTS_STARTS | {"MinErrorFlow", "MinFlowDecomp", "MinFlowDecompCycles"}:
             for v in inner[:2]:
-                add(f"add_start:{v}", use0, {"additional_starts": [v]}, {"additional_starts": [v + "|in"]}, starts=[v])
-                add(f"add_end:{v}", use0, {"additional_ends": [v]}, {"additional_ends": [v + "|out"]}, ends=[v])
+                add(f"add_start:{v}", use0, {"additional_starts": [v]}, {"_global_starts" if glob else "additional_starts": [v + "|in"]}, starts=[v])
+                add(f"add_end:{v}", use0, {"additional_ends": [v]}, {"_global_ends" if glob else "additional_ends": [v + "|out"]}, ends=[v])
+            # ... and instances that NEED the additional start / end: a route of weight 2 that begins (ends) at the inner node is added
+            # to the node weights, so the weights are only explained if the start (end) is really wired in
+            def _bfs(src, fwd):
+                prev = {src: None}
+                queue = [src]
+                while queue:
+                    x = queue.pop(0)
+                    nxt = [b for (a, b) in A if a == x] if fwd else [a for (a, b) in A if b == x]
+                    if not nxt and x != src:
+                        path = []
+                        while x is not None:
+                            path.append(x)
+                            x = prev[x]
+                        return path
+                    for y in nxt:
+                        if y not in prev:
+                            prev[y] = x
+                            queue.append(y)
+                return None
+            for v in inner[:2]:
+                for fwd, nm_, kwn in ((True, "need_start", "additional_starts"), (False, "need_end", "additional_ends")):
+                    pth = _bfs(v, fwd)
+                    if not pth:
+                        continue
+                    d = dict(use0, node_w=dict(use0["node_w"]))
+                    for x in set(pth):
+                        d["node_w"][x] += 2
+                    add(f"{nm_}:{v}", d, {kwn: [v]}, {("_global_" + kwn.split("_")[1]) if glob else kwn: [v + ("|in" if fwd else "|out")]},
+                        starts=[v] if fwd else [], ends=[] if fwd else [v])
+            if len(inner) >= 2 and glob:
+                add("add_start+end", use0, {"additional_starts": [inner[0]], "additional_ends": [inner[1]]},
+                    {"_global_starts": [inner[0] + "|in"], "_global_ends": [inner[1] + "|out"]}, starts=[inner[0]], ends=[inner[1]])
         if cls in sweep.ERRM | {"MinErrorFlow"}:
             add("scale", use0, {"error_scaling": [[V[0], 0.5]]}, {"error_scaling": [[[V[0] + "|in", V[0] + "|out"], 0.5]]})
 
     for name, ninst, nkw, ekw_extra, starts, ends in variants:
         EV, EE = expand(ninst["nodes"], ninst["arcs"], ninst["node_w"])
-        einst = {"fam": ninst["fam"], "nodes": EV, "arcs": EE}
         orig_arcs_exp = [[a[0] + "|out", a[1] + "|in"] for a in ninst["arcs"]]
+        if ekw_extra.get("_global_starts"):
+            EV = EV + ["S*|in", "S*|out"]
+            EE = EE + [["S*|in", "S*|out", None]] + [["S*|out", x, None] for x in ekw_extra["_global_starts"]]
+            orig_arcs_exp += [["S*|in", "S*|out"]] + [["S*|out", x] for x in ekw_extra["_global_starts"]]
+        if ekw_extra.get("_global_ends"):
+            EV = EV + ["T*|in", "T*|out"]
+            EE = EE + [["T*|in", "T*|out", None]] + [[x, "T*|in", None] for x in ekw_extra["_global_ends"]]
+            orig_arcs_exp += [["T*|in", "T*|out"]] + [[x, "T*|in"] for x in ekw_extra["_global_ends"]]
+        einst = {"fam": ninst["fam"], "nodes": EV, "arcs": EE}
         absent_nodes = [[v + "|in", v + "|out"] for v in ninst["nodes"] if ninst["node_w"].get(v) is None]
         # k for k-models: covering number of the weighted, non-ignored nodes (error / cover models), decomposition optimum for FD
         ign_nodes = set(nkw.get("elements_to_ignore", [])) | {v for v in ninst["nodes"] if ninst["node_w"].get(v) is None}
@@ -205,7 +248,7 @@ def run(case):
             ekw = dict(kw0)
             ekw["elements_to_ignore"] = orig_arcs_exp + absent_nodes + list(ekw_extra.get("elements_to_ignore", []))
             for k_, v_ in ekw_extra.items():
-                if k_ != "elements_to_ignore":
+                if k_ != "elements_to_ignore" and not k_.startswith("_global"):
                     ekw[k_] = v_
             if cls == "MinErrorFlow":
                 on = _observe_mef(ninst, nkw_full)
